@@ -179,7 +179,8 @@ def main(argv=None):
     print('overlay built in %.1fs (rebuilt %d extension modules from the working tree%s)' % (
         t_build, len(binfo['rebuilt']), ', simulated OpenMP runtime' if binfo['sim_omp'] else ''))
     sys.stdout.flush()
-    extra_spec = {'sim_omp': bool(conf.get('sim_omp')), 'sim_clock': bool(conf.get('sim_clock')), 'verif': VERIF}
+    extra_spec = {'sim_omp': bool(conf.get('sim_omp')), 'sim_clock': bool(conf.get('sim_clock')), 'verif': VERIF,
+                  'known_patterns': [e['signature'] for e in load_known(check) if e.get('status') == 'open']}
 
     if args.replay:
         rp = json.load(open(args.replay))
@@ -208,21 +209,55 @@ def main(argv=None):
     cap = conf['cap']
     batch_timeout = 900 if args.tier == 'quick' else 4 * 3600
     deadline = 420 if args.tier == 'quick' else 3 * 3600
-    procs = []
-    for w in range(W):
-        idx = list(range(args.start + w, args.start + nruns, W))
-        spec = {'check': check, 'tier': args.tier, 'seed': seed, 'indices': idx,
-                'out': os.path.join(scratch, 'w%02d.json' % w), 'scratch': os.path.join(scratch, 'w%02d' % w),
-                'per_run_cap_s': cap, 'deadline_s': deadline}
-        spec.update(extra_spec)
-        procs.append(spawn(spec, overlay))
-    hung = wait_all(procs, batch_timeout)
     harness_errors = []
     hang_cases = []
     results = []
-    for p in procs:
-        outp = p._spec['out']
-        if p in hung or p.returncode != 0 or not os.path.exists(outp):
+    # dynamic pool of fresh worker interpreters over statically defined batches; a batch whose worker
+    # dies or hangs is re-queued without the run it died on (that run is classified separately below)
+    nb = max(1, min(W * 4, nruns // 25 or 1))
+    if nb < W:
+        nb = W
+    queue = []
+    for b in range(nb):
+        idx = list(range(args.start + b, args.start + nruns, nb))
+        if idx:
+            queue.append(idx)
+    running = []
+    seq = [0]
+    t_pool = time.time()
+    max_crashes = 24
+
+    def start(idx):
+        seq[0] += 1
+        spec = {'check': check, 'tier': args.tier, 'seed': seed, 'indices': idx,
+                'out': os.path.join(scratch, 'b%04d.json' % seq[0]), 'scratch': os.path.join(scratch, 'b%04d' % seq[0]),
+                'per_run_cap_s': cap, 'deadline_s': deadline}
+        spec.update(extra_spec)
+        p = spawn(spec, overlay)
+        p._t0 = time.time()
+        return p
+
+    while queue or running:
+        while queue and len(running) < W:
+            running.append(start(queue.pop(0)))
+        time.sleep(0.02)
+        for p in list(running):
+            rc = p.poll()
+            timed_out = rc is None and (time.time() - t_pool > batch_timeout)
+            if rc is None and not timed_out:
+                continue
+            if timed_out:
+                try:
+                    p.kill()
+                except OSError:
+                    pass
+                p.wait()
+            running.remove(p)
+            outp = p._spec['out']
+            if (not timed_out) and p.returncode == 0 and os.path.exists(outp):
+                results.append(json.load(open(outp)))
+                shutil.rmtree(p._spec['scratch'], ignore_errors=True)
+                continue
             cur = None
             try:
                 cur = int(open(outp + '.progress').read().strip())
@@ -233,9 +268,12 @@ def main(argv=None):
                 err = open(outp + '.stderr').read()[-2500:]
             except Exception:
                 pass
-            hang_cases.append({'run_index': cur, 'returncode': p.returncode, 'stderr': err, 'hung': p in hung})
-            continue
-        results.append(json.load(open(outp)))
+            hang_cases.append({'run_index': cur, 'returncode': p.returncode, 'stderr': err, 'hung': timed_out})
+            shutil.rmtree(p._spec['scratch'], ignore_errors=True)
+            if cur is not None and len(hang_cases) <= max_crashes and not timed_out:
+                rest = [i for i in p._spec['indices'] if i != cur]
+                if rest:
+                    queue.append(rest)
 
     # aggregate
     agg = {'runs': 0, 'steps': 0, 'probes': {}, 'faults': {}, 'not_offered': {}, 'extra': {}}
